@@ -50,16 +50,55 @@ def scenario(k, cmds, order_seed):
         return out
     return fn
 
+def scenario_failover(cmds):
+    """3 nodes, the primary dies, the next-oldest node is elected (real elections as coroutines), then every command on both survivors"""
+    def fn(net, rng):
+        fails = []
+        if not cluster.form_cluster(net, 3, rng, co=True): return [Failure("cluster-does-not-form", "3 nodes, coroutine mode")]
+        net.op(1, "SESS 1"); net.cmd(1, 1, "auth adm pw"); net.cmd(1, 1, "create-db t tok")
+        if not net.settle(rng): return [Failure("no-quiescence", "setup")]
+        for i in (2, 3): net.op(i, "SESS 1"); net.cmd(i, 1, "auth adm pw"); net.cmd(i, 1, "use-db t tok")
+        if not net.settle(rng): return [Failure("no-quiescence", "setup")]
+        for j in (2, 3): net.disconnect(1, j)
+        net.parked = [x for x in net.parked if x[0] != 1]
+        if not net.settle(rng): return [Failure("election-does-not-terminate:primary-dies", f"parked {net.parked}")]
+        for node in (2, 3):
+            for cmd in cmds:
+                t0 = len(net.trace)
+                net.cmd(node, 1, cmd)
+                ok = net.settle(rng, budget=200)
+                burst = [b for b in net.trace[t0:] if 1 not in (b[1], b[2])]
+                role = "new-primary" if node == 2 else "secondary"
+                if not ok:
+                    return [Failure(f"self-sustaining-exchange-after-failover:{cmd.split(' ')[0]}@{role}", f"{cmd!r} on n{node}: still exchanging messages after 200 deliveries; last {burst[-6:]}")]
+                fwd = [b for b in burst if b[0] == "fwd"]
+                forwards = [b for b in fwd if b[1] != 2 and b[2] == 2]; copies = [b for b in fwd if b[1] == 2]; lateral = [b for b in fwd if b[1] != 2 and b[2] != 2]
+                acks = [b for b in burst if b[0] == "back" and b[3].startswith("ack ")]
+                where = f"{cmd!r} on n{node} ({role}) after the failover: forwards={len(forwards)} copies={len(copies)} acks={len(acks)} lateral={len(lateral)}; burst {burst}"
+                if lateral: fails.append(Failure(f"secondary-fans-out:{cmd.split(' ')[0]}@{role}", where))
+                if len(forwards) > 1: fails.append(Failure(f"more-than-one-forward:{cmd.split(' ')[0]}@{role}", where))
+                if len(copies) > 1: fails.append(Failure(f"more-than-one-copy-per-secondary:{cmd.split(' ')[0]}@{'primary' if node == 2 else 'secondary'}", where))
+                if len(acks) > len(copies): fails.append(Failure(f"more-acks-than-copies:{cmd.split(' ')[0]}@{role}", where))
+        seen = set(); out = []
+        for f in fails:
+            if f.cls not in seen: seen.add(f.cls); out.append(f)
+        return out
+    return fn
+
+FAILOVER_CMDS = ["set a 1", "remove a", "increment n", "resolve 7 t a 1 z", "snapshot false", "create-user u1 pw", "set-permissions u1 rw a*", "create-db d3 tk3", "set-safe a 0 x"]
+
 def scenarios(tier):
     S = []
     for k in (2, 3):
         chunks = [COMMANDS[i::4] for i in range(4)] if tier == "quick" else ([COMMANDS[i::2] for i in range(2)] + [list(reversed(COMMANDS))]) * 4
         for j, ch in enumerate(chunks):
             S.append((f"k{k}-commands-{j}", scenario(k, ch, j)))
+    S.append(("k3-after-failover", scenario_failover(FAILOVER_CMDS)))
+    if tier != "quick": S.append(("k3-after-failover-b", scenario_failover(list(reversed(FAILOVER_CMDS)))))
     return S
 
 RULE = ("every client-visible command (41 command lines covering all request kinds a client can send, accepted and refused, including resolve, snapshot, create-user, set-permissions, increment, remove and the replicate-* / ack / election commands "
-        "sent by a client) issued on every node of 2- and 3-node clusters of real nodes; after each command messages are delivered in a seeded-random FIFO-respecting order with a budget of 200 deliveries (the bound is 1 + 2(k-1) + replies): "
+        "sent by a client) issued on every node (and, in one scenario, on the two survivors after the primary died and a new one was elected) of 2- and 3-node clusters of real nodes; after each command messages are delivered in a seeded-random FIFO-respecting order with a budget of 200 deliveries (the bound is 1 + 2(k-1) + replies): "
         "the burst must end, with at most one forward to the primary, one copy per secondary, one acknowledgement per copy, no message between two secondaries. Every primitive operation also runs on the Lean model in lockstep. distinct by trace hash")
 
 def main(tier, seed):
